@@ -47,6 +47,51 @@ theorem tiles_postpass (L : Lang) (src : List Nat) :
     simp [tiles] at h ⊢
     exact ⟨h.1, ih _ _ h.2⟩
 
+theorem lexDrain_eq (L : Lang) (src : List Nat) : ∀ (f : Nat) (s : LexSt),
+    s.pending.length + 2 * s.raw.length ≤ f →
+    lexDrain L src f s = s.pending ++ postpass L src s.raw := by
+  intro f
+  induction f with
+  | zero =>
+    intro s h
+    have h1 : s.pending = [] := List.eq_nil_of_length_eq_zero (by omega)
+    have h2 : s.raw = [] := List.eq_nil_of_length_eq_zero (by omega)
+    simp [lexDrain, h1, h2, postpass]
+  | succ f ih =>
+    intro s h
+    obtain ⟨pending, raw⟩ := s
+    cases pending with
+    | cons p ps =>
+      simp only [lexDrain, lexNext]
+      rw [ih _ (by simp at h ⊢; omega)]
+      rfl
+    | nil =>
+      cases raw with
+      | nil => simp [lexDrain, lexNext, postpass]
+      | cons t rest =>
+        by_cases hc : t.kind = L.int ∧ endsWithDot src t = true ∧ t.hi > t.lo + 1
+        · cases rest with
+          | nil =>
+            simp only [lexDrain, lexNext, hc, and_self, if_true]
+            rw [ih _ (by simp at h ⊢; omega)]
+            simp [postpass, hc]
+          | cons nx rest' =>
+            by_cases hd : nx.kind = L.dot ∧ nx.lo = t.hi
+            · simp only [lexDrain, lexNext, hc, hd, and_self, if_true]
+              rw [ih _ (by simp at h ⊢; omega)]
+              simp [postpass, hc, hd]
+            · simp only [lexDrain, lexNext, hc, and_self, if_true, hd, if_false]
+              rw [ih _ (by simp at h ⊢; omega)]
+              simp [postpass, hc, hd]
+        · simp only [lexDrain, lexNext, hc, if_false]
+          rw [ih _ (by simp at h ⊢; omega)]
+          simp [postpass, hc]
+
+theorem lexAll_eq (L : Lang) (src : List Nat) (raw : List Tok) : lexAll L src raw = postpass L src raw := by
+  unfold lexAll
+  rw [lexDrain_eq L src _ _ (by simp)]
+  rfl
+
 theorem isBoundary_dot (src : List Nat) (i : Nat) (h : src[i]? = some 46) : isBoundary src i = true := by
   simp [isBoundary, h]
 
@@ -618,6 +663,354 @@ theorem sink_lossless_core (L : Lang) (src : List Nat) (toks : List Tok) (events
 /-! ## Parser operations: the Marker / Event discipline -/
 
 
+theorem leavesList_append : ∀ (xs ys : List Tree), leavesList (xs ++ ys) = leavesList xs ++ leavesList ys := by
+  intro xs
+  induction xs with
+  | nil => intro ys; simp [leavesList]
+  | cons x xs ih => intro ys; simp [leavesList, ih]
+
+/-- Leaf-side invariant of the sink: the leaves pushed so far followed by the remaining tokens (as
+leaves) are the lexer's tokens. -/
+def LInv (L : Lang) (src : List Nat) (all toks : List Tok) (b : Builder) : Prop :=
+  leavesList b.children ++ lexLeaves L src toks = lexLeaves L src all
+
+theorem LInv.push {L : Lang} {src : List Nat} {all : List Tok} {t : Tok} {ts : List Tok} {b : Builder}
+    (h : LInv L src all (t :: ts) b) : LInv L src all ts (b.token (L.toSyntax t.kind) (slice src t.lo t.hi)) := by
+  unfold LInv at h ⊢
+  rw [← h]
+  simp [Builder.token, leavesList_append, leavesList, Tree.leaves, lexLeaves]
+
+theorem eatTrivia_leaves (L : Lang) (src : List Nat) (all : List Tok) : ∀ (toks : List Tok) (b : Builder) (st' : SinkSt),
+    eatTrivia L src toks b = .ok st' → LInv L src all toks b → LInv L src all st'.toks st'.b := by
+  intro toks
+  induction toks with
+  | nil => intro b st' h hI; simp [eatTrivia] at h; subst h; exact hI
+  | cons t ts ih =>
+    intro b st' h hI
+    by_cases ht : L.isTrivia t.kind = true
+    · by_cases hs : sliceOk src t = true
+      · simp [eatTrivia, ht, hs] at h
+        exact ih _ _ h hI.push
+      · simp [eatTrivia, ht, hs] at h
+    · simp [eatTrivia, ht] at h
+      subst h
+      exact hI
+
+theorem sinkToken_leaves (L : Lang) (src : List Nat) (all : List Tok) (k : Nat) (st st' : SinkSt)
+    (h : sinkToken src k st = .ok st') (hk : ∀ t ∈ st.toks.head?, L.toSyntax t.kind = k)
+    (hI : LInv L src all st.toks st.b) : LInv L src all st'.toks st'.b := by
+  unfold sinkToken at h
+  cases hts : st.toks with
+  | nil => simp [hts] at h; subst h; exact hI
+  | cons t ts =>
+    rw [hts] at h hI
+    by_cases hs : sliceOk src t = true
+    · simp [hs] at h
+      subst h
+      have := hk t (by simp [hts])
+      rw [← this]
+      exact hI.push
+    · simp [hs] at h
+
+theorem tokenN_leaves (L : Lang) (src : List Nat) (all : List Tok) (k : Nat) : ∀ (n : Nat) (st st' : SinkSt),
+    tokenN src k n st = .ok st' → ((st.toks.take n).all fun t => L.toSyntax t.kind == k) = true →
+    LInv L src all st.toks st.b → LInv L src all st'.toks st'.b := by
+  intro n
+  induction n with
+  | zero => intro st st' h _ hI; simp [tokenN] at h; subst h; exact hI
+  | succ n ih =>
+    intro st st' h hk hI
+    simp only [tokenN] at h
+    cases h1 : sinkToken src k st with
+    | panic => simp [h1] at h
+    | diverge => simp [h1] at h
+    | ok st1 =>
+      simp [h1] at h
+      have hhead : ∀ t ∈ st.toks.head?, L.toSyntax t.kind = k := by
+        intro t ht
+        cases hts : st.toks with
+        | nil => simp [hts] at ht
+        | cons a r =>
+          simp [hts] at ht hk
+          subst ht
+          exact hk.1
+      have hI1 := sinkToken_leaves L src all k st st1 h1 hhead hI
+      apply ih st1 st' h _ hI1
+      -- the remaining n tokens
+      unfold sinkToken at h1
+      cases hts : st.toks with
+      | nil => simp [hts] at h1; subst h1; simp [hts]
+      | cons a r =>
+        rw [hts] at h1
+        by_cases hs : sliceOk src a = true
+        · simp [hs] at h1
+          subst h1
+          simp [hts] at hk ⊢
+          exact hk.2
+        · simp [hs] at h1
+
+theorem finishNode_leaves (b b' : Builder) (h : b.finishNode = .ok b') :
+    leavesList b'.children = leavesList b.children := by
+  unfold Builder.finishNode at h
+  cases hp : b.parents with
+  | nil => simp [hp] at h
+  | cons p ps =>
+    obtain ⟨k, fc⟩ := p
+    simp [hp] at h
+    subst h
+    simp only [leavesList_append, leavesList, Tree.leaves, List.append_nil]
+    rw [← leavesList_append, List.take_append_drop]
+
+theorem kinds_set (L : Lang) : ∀ (A : List Event) (j : Nat) (e : Event) (ts : List Tok),
+    A[j]? = some e → e.isStartOrPh = true →
+    kindsAgree L ts (A.set j .placeholder) = kindsAgree L ts A := by
+  intro A
+  induction A with
+  | nil => intro j e ts h; simp at h
+  | cons a tl ih =>
+    intro j e ts h he
+    cases j with
+    | zero =>
+      simp at h; subst h
+      cases a <;> simp [Event.isStartOrPh] at he <;> simp [kindsAgree, stepCursor]
+    | succ j =>
+      simp at h
+      simp [kindsAgree, ih _ _ _ h he]
+
+theorem walk_kinds (L : Lang) : ∀ (f : Nat) (A : List Event) (idx : Nat) (fp : Option Nat) (ks : List Nat)
+    (A' : List Event) (ks' : List Nat),
+    walk f A idx fp ks = .ok (A', ks') → FpOk A →
+    (∀ d, fp = some d → ∃ e, A[idx + d]? = some e ∧ e.isStartOrPh = true) →
+    FpOk A' ∧ (∀ j : Nat, A[j]? = some Event.placeholder → A'[j]? = some Event.placeholder) ∧
+      (∀ ts, kindsAgree L ts A' = kindsAgree L ts A) ∧ A'.length = A.length ∧
+      (∀ ts, A'.foldl (stepCursor L) ts = A.foldl (stepCursor L) ts) := by
+  intro f
+  induction f with
+  | zero =>
+    intro A idx fp ks A' ks' h hok _
+    cases fp with
+    | none => simp [walk] at h; obtain ⟨h1, _⟩ := h; subst h1; exact ⟨hok, fun _ h => h, fun _ => rfl, rfl, fun _ => rfl⟩
+    | some d => simp [walk] at h
+  | succ f ih =>
+    intro A idx fp ks A' ks' h hok hcur
+    cases fp with
+    | none => simp [walk] at h; obtain ⟨h1, _⟩ := h; subst h1; exact ⟨hok, fun _ h => h, fun _ => rfl, rfl, fun _ => rfl⟩
+    | some d =>
+      obtain ⟨e, he, hsp⟩ := hcur d rfl
+      cases e with
+      | token k n => simp [Event.isStartOrPh] at hsp
+      | finish => simp [Event.isStartOrPh] at hsp
+      | placeholder =>
+        simp [walk, he, set_eq_self _ _ _ he] at h
+        obtain ⟨h1, _⟩ := h; subst h1
+        exact ⟨hok, fun _ h => h, fun _ => rfl, rfl, fun _ => rfl⟩
+      | start k fp' =>
+        simp [walk, he] at h
+        have hcur2 : ∀ d', fp' = some d' →
+            ∃ e, (A.set (idx + d) .placeholder)[idx + d + d']? = some e ∧ e.isStartOrPh = true := by
+          intro d' hd'
+          subst hd'
+          obtain ⟨h1, e', h2, h3⟩ := hok _ _ _ he
+          refine ⟨e', ?_, h3⟩
+          rw [List.getElem?_set_ne (by omega)]
+          exact h2
+        obtain ⟨r1, r2, r3, r4, r5⟩ := ih _ _ _ _ _ _ h (hok.set_ph _) hcur2
+        refine ⟨r1, ?_, ?_, by simpa using r4, ?_⟩
+        · intro j hj
+          apply r2
+          by_cases hjj : idx + d = j
+          · subst hjj; rw [he] at hj; simp at hj
+          · rw [List.getElem?_set_ne hjj]; exact hj
+        · intro ts
+          rw [r3, kinds_set L _ _ _ _ he rfl]
+        · intro ts
+          rw [r5, foldl_cursor_set L _ _ _ _ he rfl]
+
+theorem startNodes_leaves (ks : List Nat) (b : Builder) :
+    leavesList (startNodes b ks).children = leavesList b.children := by
+  rw [startNodes_children]
+
+theorem eatTrivia_toks (L : Lang) (src : List Nat) : ∀ (toks : List Tok) (b : Builder) (st' : SinkSt),
+    eatTrivia L src toks b = .ok st' → st'.toks = dropTrivia L toks := by
+  intro toks
+  induction toks with
+  | nil => intro b st' h; simp [eatTrivia] at h; subst h; rfl
+  | cons t ts ih =>
+    intro b st' h
+    by_cases ht : L.isTrivia t.kind = true
+    · by_cases hs : sliceOk src t = true
+      · simp [eatTrivia, ht, hs] at h
+        simp [dropTrivia, ht, ih _ _ h]
+      · simp [eatTrivia, ht, hs] at h
+    · simp [eatTrivia, ht] at h
+      subst h
+      simp [dropTrivia, ht]
+
+theorem sinkToken_toks (src : List Nat) (k : Nat) (st st' : SinkSt) (h : sinkToken src k st = .ok st') :
+    st'.toks = st.toks.drop 1 := by
+  unfold sinkToken at h
+  cases hts : st.toks with
+  | nil => simp [hts] at h; subst h; simp [hts]
+  | cons t ts =>
+    rw [hts] at h
+    by_cases hs : sliceOk src t = true
+    · simp [hs] at h; subst h; simp
+    · simp [hs] at h
+
+theorem tokenN_toks (src : List Nat) (k : Nat) : ∀ (n : Nat) (st st' : SinkSt),
+    tokenN src k n st = .ok st' → st'.toks = st.toks.drop n := by
+  intro n
+  induction n with
+  | zero => intro st st' h; simp [tokenN] at h; subst h; simp
+  | succ n ih =>
+    intro st st' h
+    simp only [tokenN] at h
+    cases h1 : sinkToken src k st with
+    | panic => simp [h1] at h
+    | diverge => simp [h1] at h
+    | ok st1 =>
+      simp [h1] at h
+      rw [ih _ _ h, sinkToken_toks _ _ _ _ h1, List.drop_drop]
+      congr 1
+      omega
+
+/-- Partial correctness of the sink loop for leaves: if the loop returns, the leaf invariant holds
+at the end and the cursor is where the cursor-only replay puts it. -/
+theorem sinkLoop_leaves (L : Lang) (src : List Nat) (all : List Tok) : ∀ (n : Nat) (R : List Event) (st st' : SinkSt),
+    R.length = n → sinkLoop L src n R st = .ok st' → FpOk R → kindsAgree L st.toks R = true →
+    LInv L src all st.toks st.b →
+    LInv L src all st'.toks st'.b ∧ st'.toks = R.foldl (stepCursor L) st.toks := by
+  intro n
+  induction n with
+  | zero =>
+    intro R st st' hl h hfp hk hI
+    have : R = [] := List.eq_nil_of_length_eq_zero hl
+    subst this
+    simp [sinkLoop] at h
+    subst h
+    exact ⟨hI, rfl⟩
+  | succ n ih =>
+    intro R st st' hl h hfp hk hI
+    cases R with
+    | nil => simp at hl
+    | cons e tl =>
+      simp at hl
+      cases e with
+      | placeholder =>
+        simp only [sinkLoop] at h
+        simp only [kindsAgree, stepCursor, Bool.true_and] at hk
+        simpa [stepCursor] using ih tl st st' hl h hfp.tail hk hI
+      | token k m =>
+        simp only [sinkLoop] at h
+        simp only [kindsAgree, Bool.and_eq_true] at hk
+        cases h1 : eatTrivia L src st.toks st.b with
+        | panic => simp [h1] at h
+        | diverge => simp [h1] at h
+        | ok st1 =>
+          simp only [h1, Res.bind_ok] at h
+          cases h2 : tokenN src k m st1 with
+          | panic => simp [h2] at h
+          | diverge => simp [h2] at h
+          | ok st2 =>
+            simp only [h2, Res.bind_ok] at h
+            have t1 := eatTrivia_toks L src _ _ _ h1
+            have t2 := tokenN_toks src k m _ _ h2
+            have hI1 := eatTrivia_leaves L src all _ _ _ h1 hI
+            have hI2 := tokenN_leaves L src all k m st1 st2 h2 (by rw [t1]; exact hk.1) hI1
+            have hk2 : kindsAgree L st2.toks tl = true := by
+              rw [t2, t1]; exact hk.2
+            obtain ⟨r1, r2⟩ := ih tl st2 st' hl h hfp.tail hk2 hI2
+            refine ⟨r1, ?_⟩
+            rw [r2, t2, t1]
+            rfl
+      | finish =>
+        simp only [sinkLoop] at h
+        simp only [kindsAgree, Bool.true_and] at hk
+        cases h1 : eatTrivia L src st.toks st.b with
+        | panic => simp [h1] at h
+        | diverge => simp [h1] at h
+        | ok st1 =>
+          simp only [h1, Res.bind_ok] at h
+          cases h2 : st1.b.finishNode with
+          | panic => simp [h2] at h
+          | diverge => simp [h2] at h
+          | ok b' =>
+            simp only [h2, Res.bind_ok] at h
+            have t1 := eatTrivia_toks L src _ _ _ h1
+            have hI1 := eatTrivia_leaves L src all _ _ _ h1 hI
+            have hI2 : LInv L src all st1.toks b' := by
+              unfold LInv at hI1 ⊢
+              rw [finishNode_leaves _ _ h2]
+              exact hI1
+            have hk2 : kindsAgree L st1.toks tl = true := by
+              rw [t1]; exact hk
+            obtain ⟨r1, r2⟩ := ih tl ⟨st1.toks, b'⟩ st' hl h hfp.tail hk2 hI2
+            refine ⟨r1, ?_⟩
+            rw [r2]
+            simp [stepCursor, t1]
+      | start k fp =>
+        simp only [sinkLoop] at h
+        simp only [kindsAgree, stepCursor, Bool.true_and] at hk
+        cases hw : walk (tl.length + 1) (Event.placeholder :: tl) 0 fp [k] with
+        | panic => simp [hw] at h
+        | diverge => simp [hw] at h
+        | ok r =>
+          obtain ⟨A', ks'⟩ := r
+          simp only [hw] at h
+          have hA : FpOk (Event.placeholder :: tl) := by
+            have := hfp.set_ph 0
+            simpa using this
+          have hcur0 : ∀ d', fp = some d' →
+              ∃ e, (Event.placeholder :: tl)[0 + d']? = some e ∧ e.isStartOrPh = true := by
+            intro d' hd'
+            subst hd'
+            obtain ⟨h1, e', h2, h3⟩ := hfp 0 k d' (by simp)
+            refine ⟨e', ?_, h3⟩
+            cases d' with
+            | zero => omega
+            | succ d'' => simpa using h2
+          obtain ⟨w1, w2, w3, w4, w5⟩ := walk_kinds L _ _ _ _ _ _ _ hw hA hcur0
+          have h0 := w2 0 (by simp)
+          cases A' with
+          | nil => simp at h0
+          | cons a tl' =>
+            simp at h0
+            subst h0
+            simp at w4
+            have hk' : kindsAgree L st.toks tl' = true := by
+              have := w3 st.toks
+              simp only [kindsAgree, stepCursor, Bool.true_and] at this
+              rw [this]; exact hk
+            have hI' : LInv L src all st.toks (startNodes st.b ks') := by
+              unfold LInv at hI ⊢
+              rw [startNodes_children]; exact hI
+            obtain ⟨r1, r2⟩ := ih tl' ⟨st.toks, startNodes st.b ks'⟩ st' (by omega) h w1.tail hk' hI'
+            refine ⟨r1, ?_⟩
+            rw [r2]
+            have := w5 st.toks
+            simpa [stepCursor] using this
+
+/-- Core of the token-level sink theorem: the leaves of the tree are the lexer's tokens. -/
+theorem sink_leaves_core (L : Lang) (src : List Nat) (toks : List Tok) (events : List Event)
+    (hT : tiles toks 0 src.length = true) (hB : onBoundaries src toks = true)
+    (hne : events ≠ []) (h1 : bal 0 (events.map (Event.cls false)) = true) (h2 : FpOk events)
+    (h3 : events.foldl (stepCursor L) toks = []) (h4 : kindsAgree L toks events = true) :
+    ∃ k cs, sink L src toks events = .ok (Tree.node k cs) ∧ (Tree.node k cs).text = src ∧
+      (Tree.node k cs).leaves = lexLeaves L src toks := by
+  have hBI : BInv 0 Builder.empty := ⟨rfl, by intro p hp; simp [Builder.empty] at hp, fun _ => rfl⟩
+  have hTI : TInv src toks Builder.empty := ⟨0, hT, hB, by simp [Builder.empty, textList]⟩
+  obtain ⟨st', k, cs, hs, hc, ht⟩ :=
+    sinkLoop_spec L src events.length events ⟨toks, Builder.empty⟩ 0 rfl hne h1 h2 hBI hTI h3
+  have hLI : LInv L src toks toks Builder.empty := by simp [LInv, Builder.empty, leavesList]
+  obtain ⟨l1, l2⟩ := sinkLoop_leaves L src toks events.length events ⟨toks, Builder.empty⟩ st' rfl hs h2 h4 hLI
+  refine ⟨k, cs, ?_, by simpa [Tree.text] using ht, ?_⟩
+  · simp [sink, hs, Builder.finish, hc]
+  · simp only at l2
+    rw [l2, h3] at l1
+    unfold LInv at l1
+    rw [hc] at l1
+    simpa [leavesList, lexLeaves, Tree.leaves] using l1
+
 /-- Left-to-right depth of a prefix that stays inside the root (every intermediate depth ≥ 1). -/
 def depthFold (d : Nat) : List Cls → Option Nat
   | [] => some d
@@ -724,6 +1117,41 @@ theorem FpOk.append_one {A : List Event} (h : FpOk A) (e : Event)
 
 
 
+/-- The check E4 makes for one event when the cursor-only replay has reached `ts`. -/
+def kindCheck (L : Lang) (ts : List Tok) : Event → Bool
+  | .token k n => ((dropTrivia L ts).take n).all fun t => L.toSyntax t.kind == k
+  | _ => true
+
+theorem kindsAgree_cons (L : Lang) (ts : List Tok) (e : Event) (es : List Event) :
+    kindsAgree L ts (e :: es) = (kindCheck L ts e && kindsAgree L (stepCursor L ts e) es) := by
+  cases e <;> simp [kindsAgree, kindCheck]
+
+theorem kindsAgree_append (L : Lang) : ∀ (es : List Event) (ts : List Tok) (e : Event),
+    kindsAgree L ts (es ++ [e]) = (kindsAgree L ts es && kindCheck L (es.foldl (stepCursor L) ts) e) := by
+  intro es
+  induction es with
+  | nil => intro ts e; simp [kindsAgree_cons, kindsAgree]
+  | cons a es ih =>
+    intro ts e
+    simp only [List.cons_append, kindsAgree_cons, ih, List.foldl_cons, Bool.and_assoc]
+
+theorem kinds_set' (L : Lang) : ∀ (A : List Event) (j : Nat) (e e' : Event) (ts : List Tok),
+    A[j]? = some e → e.isStartOrPh = true → e'.isStartOrPh = true →
+    kindsAgree L ts (A.set j e') = kindsAgree L ts A := by
+  intro A
+  induction A with
+  | nil => intro j e e' ts h; simp at h
+  | cons a tl ih =>
+    intro j e e' ts h he he'
+    cases j with
+    | zero =>
+      simp at h; subst h
+      cases a <;> simp [Event.isStartOrPh] at he <;>
+        cases e' <;> simp [Event.isStartOrPh] at he' <;> simp [kindsAgree, stepCursor]
+    | succ j =>
+      simp at h
+      simp [kindsAgree_cons, ih _ _ _ _ h he he']
+
 /-- Invariant tying the parser state to the ghost state of the discipline; `all` is the whole token
 list. -/
 structure PInv (L : Lang) (all : List Tok) (g : Ghost) (s : PState) : Prop where
@@ -733,6 +1161,7 @@ structure PInv (L : Lang) (all : List Tok) (g : Ghost) (s : PState) : Prop where
   dones : ∀ p ∈ g.dones, p < s.events.length
   fp : FpOk s.events
   cur : dropTrivia L (s.events.foldl (stepCursor L) all) = dropTrivia L s.toks
+  kinds : kindsAgree L all s.events = true
   suffix : ∃ pre, all = pre ++ s.toks
   errs : ∀ e ∈ s.errors, e = (0, 0) ∨ ∃ t ∈ all, L.isTrivia t.kind = false ∧ e = (t.lo, t.hi)
 
@@ -836,7 +1265,8 @@ theorem setFp_spec (L : Lang) : ∀ (f : Nat) (es : List Event) (cur to : Nat),
     ∃ es', setForwardParent f es cur to = .ok es' ∧ es'.length = es.length ∧ FpOk es' ∧
       es'.map (Event.cls true) = es.map (Event.cls true) ∧
       (∀ i : Nat, es'[i]? = some Event.placeholder ↔ es[i]? = some Event.placeholder) ∧
-      (∀ ts, es'.foldl (stepCursor L) ts = es.foldl (stepCursor L) ts) := by
+      (∀ ts, es'.foldl (stepCursor L) ts = es.foldl (stepCursor L) ts) ∧
+      (∀ ts, kindsAgree L ts es' = kindsAgree L ts es) := by
   intro f
   induction f with
   | zero => intro es cur to _ h1 h2; omega
@@ -846,27 +1276,27 @@ theorem setFp_spec (L : Lang) : ∀ (f : Nat) (es : List Event) (cur to : Nat),
     cases he : es[cur] with
     | token k n =>
       rw [he] at hc
-      exact ⟨es, by simp [setForwardParent, hc], rfl, hok, rfl, fun _ => Iff.rfl, fun _ => rfl⟩
+      exact ⟨es, by simp [setForwardParent, hc], rfl, hok, rfl, fun _ => Iff.rfl, fun _ => rfl, fun _ => rfl⟩
     | finish =>
       rw [he] at hc
-      exact ⟨es, by simp [setForwardParent, hc], rfl, hok, rfl, fun _ => Iff.rfl, fun _ => rfl⟩
+      exact ⟨es, by simp [setForwardParent, hc], rfl, hok, rfl, fun _ => Iff.rfl, fun _ => rfl, fun _ => rfl⟩
     | placeholder =>
       rw [he] at hc
-      exact ⟨es, by simp [setForwardParent, hc], rfl, hok, rfl, fun _ => Iff.rfl, fun _ => rfl⟩
+      exact ⟨es, by simp [setForwardParent, hc], rfl, hok, rfl, fun _ => Iff.rfl, fun _ => rfl, fun _ => rfl⟩
     | start k fp =>
       rw [he] at hc
       cases fp with
       | some d =>
         obtain ⟨h1, e, h2, _⟩ := hok cur k d hc
         have hlt2 : cur + d < es.length := (List.getElem?_eq_some_iff.1 h2).1
-        obtain ⟨es', r1, r2, r3, r4, r5, r6⟩ := ih es (cur + d) to hok hlt2 (by omega) hto hph
-        exact ⟨es', by simp [setForwardParent, hc, r1], r2, r3, r4, r5, r6⟩
+        obtain ⟨es', r1, r2, r3, r4, r5, r6, r7⟩ := ih es (cur + d) to hok hlt2 (by omega) hto hph
+        exact ⟨es', by simp [setForwardParent, hc, r1], r2, r3, r4, r5, r6, r7⟩
       | none =>
         have hne : cur ≠ to := by
           intro h; subst h; rw [hc] at hph; simp at hph
         have hle : cur ≤ to := by omega
         refine ⟨es.set cur (.start k (some (to - cur))), by simp [setForwardParent, hc, hle], by simp, ?_, ?_,
-          ph_set_start _ hc, ?_⟩
+          ph_set_start _ hc, ?_, fun ts => kinds_set' L es cur _ _ ts hc rfl rfl⟩
         · apply hok.set_start _ hc
           intro d hd
           simp at hd
@@ -943,6 +1373,8 @@ theorem step_inv (L : Lang) (all : List Tok) : ∀ (op : POp) (rest : List POp) 
       dones := by intro p hp; have := hI.dones p hp; simp; omega
       fp := hI.fp.append_one _ (by intro k d h; cases h)
       cur := by simpa [List.foldl_append, stepCursor] using hI.cur
+      kinds := by
+        rw [kindsAgree_append, hI.kinds]; rfl
       suffix := hI.suffix
       errs := hI.errs }
   | complete p k =>
@@ -984,6 +1416,8 @@ theorem step_inv (L : Lang) (all : List Tok) : ∀ (op : POp) (rest : List POp) 
         simp only [List.foldl_append, List.foldl_cons, List.foldl_nil, stepCursor]
         rw [foldl_cursor_set' L _ _ _ _ _ hph rfl rfl, dropTrivia_idem]
         exact hI.cur
+      kinds := by
+        rw [kindsAgree_append, kinds_set' L _ _ _ _ _ hph rfl rfl, hI.kinds]; rfl
       suffix := hI.suffix
       errs := hI.errs }
   | precede p =>
@@ -991,7 +1425,7 @@ theorem step_inv (L : Lang) (all : List Tok) : ∀ (op : POp) (rest : List POp) 
     obtain ⟨hp, hd⟩ := hd
     have hplt := hI.dones p hp
     have hok0 : FpOk (s.events ++ [Event.placeholder]) := hI.fp.append_one _ (by intro k d h; cases h)
-    obtain ⟨es', r1, r2, r3, r4, r5, r6⟩ :=
+    obtain ⟨es', r1, r2, r3, r4, r5, r6, r7⟩ :=
       setFp_spec L (s.events.length + 1) (s.events ++ [Event.placeholder]) p s.events.length
         hok0 (by simp; omega) (by simp) (by simp) (by simp)
     refine ⟨{ s with events := es' }, { g with opens := s.events.length :: g.opens },
@@ -1019,6 +1453,9 @@ theorem step_inv (L : Lang) (all : List Tok) : ∀ (op : POp) (rest : List POp) 
         show dropTrivia L (es'.foldl (stepCursor L) all) = _
         rw [r6]
         simpa [List.foldl_append, stepCursor] using hI.cur
+      kinds := by
+        show kindsAgree L all es' = true
+        rw [r7, kindsAgree_append, hI.kinds]; rfl
       suffix := hI.suffix
       errs := hI.errs }
   | bump =>
@@ -1034,6 +1471,12 @@ theorem step_inv (L : Lang) (all : List Tok) : ∀ (op : POp) (rest : List POp) 
       cur := by
         simp only [List.foldl_append, List.foldl_cons, List.foldl_nil, stepCursor, sourceBump]
         rw [hI.cur]
+      kinds := by
+        rw [kindsAgree_append, hI.kinds]
+        simp only [kindCheck, Bool.true_and, hI.cur, currentKind]
+        cases dropTrivia L s.toks with
+        | nil => rfl
+        | cons t r => simp
       suffix := by
         obtain ⟨pre, hpre⟩ := hI.suffix
         obtain ⟨pre2, hpre2⟩ := dropTrivia_suffix L s.toks
@@ -1054,6 +1497,8 @@ theorem step_inv (L : Lang) (all : List Tok) : ∀ (op : POp) (rest : List POp) 
       dones := by intro p hp; have := hI.dones p hp; simp; omega
       fp := hI.fp.append_one _ (by intro k d h; cases h)
       cur := by simpa [List.foldl_append, stepCursor] using hI.cur
+      kinds := by
+        rw [kindsAgree_append, hI.kinds]; rfl
       suffix := hI.suffix
       errs := hI.errs }
   | finishNode =>
@@ -1072,6 +1517,8 @@ theorem step_inv (L : Lang) (all : List Tok) : ∀ (op : POp) (rest : List POp) 
       cur := by
         simp only [List.foldl_append, List.foldl_cons, List.foldl_nil, stepCursor]
         rw [dropTrivia_idem]; exact hI.cur
+      kinds := by
+        rw [kindsAgree_append, hI.kinds]; rfl
       suffix := hI.suffix
       errs := hI.errs }
   | error =>
@@ -1084,6 +1531,7 @@ theorem step_inv (L : Lang) (all : List Tok) : ∀ (op : POp) (rest : List POp) 
       dones := hI.dones
       fp := hI.fp
       cur := hI.cur
+      kinds := hI.kinds
       suffix := hI.suffix
       errs := by
         intro e he
@@ -1184,7 +1632,8 @@ theorem parser_events_ok_core (L : Lang) (toks : List Tok) (root : Nat) (body : 
     ∃ s, run L (PState.init toks) (parseOps root body) = .ok s ∧
       eventsBalanced s.events = true ∧ fpOk s.events = true ∧
       (noEof L toks = true → atEnd L s = true → consumesAll L toks s.events = true) ∧
-      (∀ e ∈ s.errors, e = (0, 0) ∨ ∃ t ∈ toks, L.isTrivia t.kind = false ∧ e = (t.lo, t.hi)) := by
+      (∀ e ∈ s.errors, e = (0, 0) ∨ ∃ t ∈ toks, L.isTrivia t.kind = false ∧ e = (t.lo, t.hi)) ∧
+      kindsAgree L toks s.events = true := by
   have hI1 : PInv L toks ⟨[], [], 0⟩ ⟨[.start root none], toks, []⟩ := {
     depth := by simp [depthFold, stepDepth, Event.cls]
     ph := by
@@ -1196,10 +1645,14 @@ theorem parser_events_ok_core (L : Lang) (toks : List Tok) (root : Nat) (body : 
       intro i k d hi
       cases i <;> simp at hi
     cur := by simp [stepCursor]
+    kinds := by simp [kindsAgree]
     suffix := ⟨[], rfl⟩
     errs := by intro e he; simp at he }
   obtain ⟨s2, g2, e2, hI2, ho, hr⟩ := run_inv L toks body ⟨[], [], 0⟩ ⟨[.start root none], toks, []⟩ hI1 hD
-  refine ⟨{ s2 with events := s2.events ++ [.finish] }, ?_, ?_, ?_, ?_, hI2.errs⟩
+  refine ⟨{ s2 with events := s2.events ++ [.finish] }, ?_, ?_, ?_, ?_, hI2.errs, ?_⟩
+  rotate_right
+  · show kindsAgree L toks (s2.events ++ [Event.finish]) = true
+    rw [kindsAgree_append, hI2.kinds]; rfl
   · simp only [parseOps, PState.init]
     rw [run_append]
     simp only [run, step, List.nil_append, Res.bind_ok]
